@@ -133,14 +133,17 @@ def run_scale(cfg):
                 return ('ok', z3.Or(rv(hi_) != rv(hf_), rv(si_) != rv(sr_)))
             if obn == 'reassigned':
                 # low_hz / slope_hz are public attributes: after reassigning them the two maps are still inverse to each other
-                if scale == 'linear':
-                    l2, s2 = z3.Real('low_hz2'), z3.Real('slope_hz2')
-                    c.assume(s2 > 0, s2 <= 1000, l2 >= -FMAX, l2 <= FMAX)
-                    o.low_hz, o.slope_hz = SReal(l2), SReal(s2)
-                else:
-                    l2 = z3.Real('low_hz2')
-                    c.assume(l2 > 0, l2 <= FMAX, f >= l2)
-                    o.low_hz = SReal(l2)
+                try:
+                    if scale == 'linear':
+                        l2, s2 = z3.Real('low_hz2'), z3.Real('slope_hz2')
+                        c.assume(s2 > 0, s2 <= 1000, l2 >= -FMAX, l2 <= FMAX)
+                        o.low_hz, o.slope_hz = SReal(l2), SReal(s2)
+                    else:
+                        l2 = z3.Real('low_hz2')
+                        c.assume(l2 > 0, l2 <= FMAX, f >= l2)
+                        o.low_hz = SReal(l2)
+                except AttributeError:
+                    return ('skip',)        # parameters made read-only: nothing to check
                 s = o.hertz_to_scale(SReal(f))
                 back = o.scale_to_hertz(s)
                 return ('ok', rv(back) != f)
@@ -323,10 +326,13 @@ def replay(w):
                             return {'reproduced': True, 'detail': '%s.%s(%s(%d)) = %r but %s(%r) = %r: an integer-typed argument is treated differently' % (sc, name, mk.__name__, n_, a_, name, float(n_), b_)}
             return {'reproduced': False, 'detail': 'integer-typed arguments give the same values'}
         if ob == 'reassigned':
-            if sc == 'linear':
-                o.low_hz, o.slope_hz = w.get('low_hz2', 3.0), w.get('slope_hz2', 2.0)
-            else:
-                o.low_hz = w.get('low_hz2', 440.0)
+            try:
+                if sc == 'linear':
+                    o.low_hz, o.slope_hz = w.get('low_hz2', 3.0), w.get('slope_hz2', 2.0)
+                else:
+                    o.low_hz = w.get('low_hz2', 440.0)
+            except AttributeError:
+                return {'reproduced': False, 'detail': 'parameters are read-only'}
             lo_ = o.low_hz if sc == 'octave' else 0.0
             for x in sorted(set([max(f or 1.0, lo_), lo_ + 1.0, 2 * lo_ + 10.0, 1000.0 + lo_])):
                 s_ = o.hertz_to_scale(x)
